@@ -508,6 +508,39 @@ func TestC14(t *testing.T) {
 			}
 		}
 	}
+	// what MarshalJSON / MarshalText-style methods hand out belongs to the caller: appending to it (the usual way
+	// of building a line of output) must not reach anything another call will hand out
+	{
+		first := map[int]string{}
+		for st := -3; st <= 12; st++ {
+			if b, err := lint.LintStatus(st).MarshalJSON(); err == nil {
+				first[st] = string(b)
+			}
+		}
+		for round := 0; round < 2; round++ {
+			for st := -3; st <= 12; st++ {
+				b, err := lint.LintStatus(st).MarshalJSON()
+				if err != nil {
+					continue
+				}
+				b = append(b, ",\n"...)
+				b = append(b, bytes.Repeat([]byte{'Z'}, 96)...)
+				_ = b
+			}
+			for st := -3; st <= 12; st++ {
+				rec.Eval()
+				rec.Class("append_to_marshalled_status")
+				b, err := lint.LintStatus(st).MarshalJSON()
+				want, had := first[st]
+				if (err == nil) != had || (had && string(b) != want) {
+					c := c14Case{What: "status-int", Status: st}
+					if rec.Report("c14", "marshal-aliases|status", fmt.Sprintf("status %d encoded as %q before and %q (err %v) after callers appended to earlier MarshalJSON results", st, want, b, err), c) {
+						t.Errorf("c14: MarshalJSON of status %d changes after appending to earlier results: %q -> %q (%v)", st, want, b, err)
+					}
+				}
+			}
+		}
+	}
 	// one name registered once per kind (names are unique per kind only): the listing has a line for each
 	registerSameName()
 	for _, f := range []*engine.FilterSpec{nil, {IncludeNames: []string{"e_verif_same_name"}}, {ExcludeNames: []string{"e_ca_country_name_missing"}}, {IncludeSources: []string{"RFC5280", "RFC6960"}}} {
